@@ -41,3 +41,8 @@ finally:
     # the check regenerates tables from the scratch tree; restore them from /repo
     sh('cd /verif && PYTHONPATH=/repo:/verif /venv/bin/python gen/gen_tables.py')
 print(json.dumps(res, indent=1))
+if '--record' in sys.argv:
+    meta['verif_run'] = {k: res.get(k) for k in ('demo_clean_exit', 'demo_seeded_exit', 'baseline', 'check_exit', 'check_lines', 'check_tail')}
+    meta['verif_run']['ran'] = 'tools/try_seed.py (scratch worktree of /repo HEAD + patch; demo.py; baseline; ./check %s --tier %s)' % (pid, tier)
+    meta['detected'] = (res.get('check_exit') == 1)
+    json.dump(meta, open(os.path.join(d, 'meta.json'), 'w'), indent=1)
